@@ -319,11 +319,24 @@ def leaves(t, tests=(), limit=4096):
     """[(tests, value)] for the boolean / flag valued term t"""
     out = []
     _leaves(t, list(tests), out, limit)
-    return out
-
-
-def _branch(arms_tests, rest, out, limit):
-    pass
+    res = []
+    for ts, v in out:
+        seen, clean, dead = set(), [], False
+        for x in ts:
+            if x in seen:
+                continue
+            seen.add(x)
+            clean.append(x)
+        for x in clean:
+            if x[0] == "cond" and ("cond", x[1], not x[2]) in seen:
+                dead = True
+            if x[0] == "is" and any(y[0] == "is" and y[1] == x[1] and y[2] != x[2] for y in clean):
+                dead = True
+            if x[0] == "not" and len(x[1]) == 1 and x[1][0] in seen:
+                dead = True
+        if not dead:
+            res.append((tuple(clean), v))
+    return res
 
 
 def _leaves(t, tests, out, limit):
@@ -562,3 +575,67 @@ def canon_exists(t):
                 e = eachs.pop()
                 return ("exists", norm(e[1]), norm(replace(B, {e: ("at", norm(e[1]))})), t[2])
     return t
+
+
+def lift(t, budget=200):
+    """conditionals hoisted out of constructors, tuples, projections and call arguments, so that `Some(if c {a} else {b})`,
+    `(if c {(x, y)} else {(u, v)}).0` and `if c {Some(a)} else {Some(b)}` have the same decision tree"""
+    COND = ("if", "match", "phi")
+
+    def is_cond(x):
+        return isinstance(x, tuple) and x and ((x[0] == "if" and len(x) == 4) or (x[0] == "match" and len(x) == 3 and isinstance(x[2], tuple)) or (x[0] == "phi" and len(x) == 3))
+
+    def rebuild(c, f):
+        if c[0] == "if":
+            return ("if", c[1], f(c[2]), f(c[3]))
+        if c[0] == "match":
+            return ("match", c[1], tuple(a[:-1] + (f(a[-1]),) for a in c[2]))
+        return ("phi", c[1], tuple((lab, f(v)) for lab, v in c[2]))
+
+    def go(x):
+        nonlocal budget
+        if not isinstance(x, tuple) or not x or budget <= 0:
+            return x
+        if is_cond(x):
+            return rebuild(x, go)
+        if x[0] == "returns" and len(x) == 2:
+            return ("returns", tuple((c, go(v)) for c, v in x[1]))
+        if x[0] == "closure":
+            return x
+        if x[0] == "proj" and len(x) == 3:
+            inner = go(x[1])
+            if is_cond(inner):
+                budget -= 1
+                return go(rebuild(inner, lambda v: sym.proj_reduce(v, x[2]) if not (isinstance(v, tuple) and v[:1] == ("never",)) else v))
+            return sym.proj_reduce(inner, x[2])
+        if x[0] in ("ctor", "list", "call", "try", "upd"):
+            y = tuple(go(i) if isinstance(i, tuple) else i for i in x)
+            # find a conditional directly among the operands
+            def find(node, path):
+                if is_cond(node):
+                    return path
+                if isinstance(node, tuple) and node and node[0] not in ("closure",) and len(path) < 12:
+                    for k, sub in enumerate(node):
+                        if isinstance(sub, tuple):
+                            r = find(sub, path + (k,))
+                            if r is not None:
+                                return r
+                return None
+            p = find(y, ())
+            if p:
+                budget -= 1
+
+                def put(node, path, v):
+                    if not path:
+                        return v
+                    return tuple(put(s_, path[1:], v) if k == path[0] else s_ for k, s_ in enumerate(node))
+
+                def get(node, path):
+                    for k in path:
+                        node = node[k]
+                    return node
+                c = get(y, p)
+                return go(rebuild(c, lambda v: v if (isinstance(v, tuple) and v[:1] == ("never",)) else put(y, p, v)))
+            return y
+        return tuple(go(i) if isinstance(i, tuple) else i for i in x)
+    return go(t)
